@@ -83,6 +83,10 @@ func (p *Prog) TryMethod(typ, name string) *types.Func {
 			return n.Method(i).Origin()
 		}
 	}
+	// a method turned into a plain function of the same name (receiver dropped or passed as a parameter)
+	if f, ok := p.tryLookup(name).(*types.Func); ok {
+		return f
+	}
 	return nil
 }
 
